@@ -40,6 +40,56 @@ type c15Spec struct {
 	swNeg           bool
 	ns              []int
 	mn, mx          [c15Dims]int64
+	// RAW shapes of the object (glue that the model decodes: Model/C15.lean Raw / decodeQI); zero values = canonical
+	parentShape                  int  // "parent = root" (or "" on the root-named object): 0 written out, 1 label absent, 2 label ""
+	ipShape, forceShape, rootShape int // spelling of a FALSE boolean label, see c15BoolCode
+	swShape                      int  // shared-weight annotation: 0 absent, 1 negative, 2 malformed JSON, 3 non-negative, 4 ""
+	nsShape                      int  // namespaces annotation: 0 canonical (absent when empty), 1 other spelling, 2 malformed (ns must be nil)
+	mnNil, mxNil                 bool // a key-less Spec.Min / Spec.Max is a nil map instead of an empty one
+}
+
+// label value codes of the op line: 0 "false", 1 "true", 2 label absent, 3 another string ("True")
+func c15BoolCode(v bool, shape int, falseCodes [3]int) int {
+	if v {
+		return 1
+	}
+	return falseCodes[shape%3]
+}
+func (sp *c15Spec) ipCode() int    { return c15BoolCode(sp.isParent, sp.ipShape, [3]int{0, 2, 3}) }
+func (sp *c15Spec) forceCode() int { return c15BoolCode(sp.force, sp.forceShape, [3]int{2, 0, 3}) }
+func (sp *c15Spec) rootCode() int  { return c15BoolCode(sp.treeRoot, sp.rootShape, [3]int{2, 0, 3}) }
+
+// parentCode: 98 = label absent, 99 = label "", else the parent's name id
+func (sp *c15Spec) parentCode() int {
+	if (sp.parent == 0 && sp.name != 0) || (sp.parent == c15NoParent && sp.name == 0) {
+		switch sp.parentShape % 3 {
+		case 1:
+			return 98
+		case 2:
+			return 99
+		}
+		if sp.parent == c15NoParent {
+			return 99
+		}
+	}
+	return sp.parent
+}
+func (sp *c15Spec) swCode() int {
+	if sp.swNeg && sp.swShape != 1 && sp.swShape != 2 {
+		return 1
+	}
+	return sp.swShape
+}
+
+func c15SetBoolLabel(q *v1alpha1.ElasticQuota, key string, code int) {
+	switch code {
+	case 0:
+		q.Labels[key] = "false"
+	case 1:
+		q.Labels[key] = "true"
+	case 3:
+		q.Labels[key] = "True"
+	}
 }
 
 // c15NoParent: the empty parent name ("") that only the root-named object can carry
@@ -109,14 +159,14 @@ type c15Repr struct {
 	emptyListAsNil   bool
 }
 
-func c15RL(v [c15Dims]int64, rp c15Repr) corev1.ResourceList {
+func c15RL(v [c15Dims]int64, nilWhenEmpty bool) corev1.ResourceList {
 	n := 0
 	for _, x := range v {
 		if x != c15Absent {
 			n++
 		}
 	}
-	if n == 0 && rp.emptyListAsNil {
+	if n == 0 && nilWhenEmpty {
 		return nil
 	}
 	l := corev1.ResourceList{}
@@ -128,52 +178,94 @@ func c15RL(v [c15Dims]int64, rp c15Repr) corev1.ResourceList {
 	return l
 }
 
-func c15Object(sp *c15Spec, rp c15Repr) *v1alpha1.ElasticQuota {
+func c15Object(sp *c15Spec) *v1alpha1.ElasticQuota {
 	q := &v1alpha1.ElasticQuota{
 		TypeMeta:   metav1.TypeMeta{Kind: "ElasticQuota", APIVersion: "scheduling.sigs.k8s.io/v1alpha1"},
 		ObjectMeta: metav1.ObjectMeta{Name: c15Name(sp.name), Namespace: "default", Labels: map[string]string{}, Annotations: map[string]string{}},
 	}
-	if !(sp.parent == 0 && rp.rootAsEmptyLabel) {
-		q.Labels[extension.LabelQuotaParent] = c15Name(sp.parent)
+	switch pc := sp.parentCode(); pc {
+	case 98:
+	case 99:
+		q.Labels[extension.LabelQuotaParent] = ""
+	default:
+		q.Labels[extension.LabelQuotaParent] = c15Name(pc)
 	}
-	if sp.isParent {
-		q.Labels[extension.LabelQuotaIsParent] = "true"
-	} else {
-		q.Labels[extension.LabelQuotaIsParent] = "false"
-	}
+	c15SetBoolLabel(q, extension.LabelQuotaIsParent, sp.ipCode())
 	if sp.tree != 0 {
 		q.Labels[extension.LabelQuotaTreeID] = c15TreeName(sp.tree)
 	}
-	if sp.force {
-		q.Labels[extension.LabelAllowForceUpdate] = "true"
+	c15SetBoolLabel(q, extension.LabelAllowForceUpdate, sp.forceCode())
+	c15SetBoolLabel(q, extension.LabelQuotaIsRoot, sp.rootCode())
+	names := make([]string, len(sp.ns))
+	for i, n := range sp.ns {
+		names[i] = c15NsName(n)
 	}
-	if sp.treeRoot {
-		q.Labels[extension.LabelQuotaIsRoot] = "true"
-	}
-	if len(sp.ns) > 0 {
-		names := make([]string, len(sp.ns))
-		for i, n := range sp.ns {
-			names[i] = c15NsName(n)
+	b, _ := json.Marshal(names)
+	switch sp.nsShape {
+	case 0:
+		if len(sp.ns) > 0 {
+			q.Annotations[extension.AnnotationQuotaNamespaces] = string(b)
 		}
-		b, _ := json.Marshal(names)
-		q.Annotations[extension.AnnotationQuotaNamespaces] = string(b)
+	case 1:
+		q.Annotations[extension.AnnotationQuotaNamespaces] = " " + string(b)
+	case 2:
+		q.Annotations[extension.AnnotationQuotaNamespaces] = "{"
 	}
-	if sp.swNeg {
+	switch sp.swCode() {
+	case 1:
 		q.Annotations[extension.AnnotationSharedWeight] = `{"cpu":"-1"}`
+	case 2:
+		q.Annotations[extension.AnnotationSharedWeight] = `{`
+	case 3:
+		q.Annotations[extension.AnnotationSharedWeight] = `{"cpu":"1"}`
+	case 4:
+		q.Annotations[extension.AnnotationSharedWeight] = ""
 	}
-	q.Spec.Min = c15RL(sp.mn, rp)
-	q.Spec.Max = c15RL(sp.mx, rp)
+	q.Spec.Min = c15RL(sp.mn, sp.mnNil)
+	q.Spec.Max = c15RL(sp.mx, sp.mxNil)
 	return q
 }
 
 // ---- pod environment: a stub client that only answers List for pods ----
 
-type c15Pod struct{ ns, quotaLabel string }
+// a pod of the environment: nsKind 0 = an unrelated namespace, 1 = namespace ns<nsID>, 2 = the namespace named
+// like quota <nsID>; label = quota-name label (-1: none)
+type c15Pod struct{ nsKind, nsID, label int }
+
+func (p c15Pod) ns() string {
+	switch p.nsKind {
+	case 1:
+		return c15NsName(p.nsID)
+	case 2:
+		return c15Name(p.nsID)
+	}
+	return "elsewhere"
+}
+func (p c15Pod) quotaLabel() string {
+	if p.label < 0 {
+		return ""
+	}
+	return c15Name(p.label)
+}
 
 type c15Client struct {
 	client.Client // nil: any other call panics (none is made by the anchored code)
 	pods          []c15Pod
 	lists         int
+	fail          bool // every List fails (apiserver error)
+}
+
+// c15Env is the part of the environment a request sees; it is written on the op line and decoded by the model.
+func (c *c15Client) envTokens() string {
+	s := fmt.Sprintf("%d %d", vB(c.fail), len(c.pods))
+	for _, p := range c.pods {
+		l := "_"
+		if p.label >= 0 {
+			l = fmt.Sprint(p.label)
+		}
+		s += fmt.Sprintf(" %d %d %s", p.nsKind, p.nsID, l)
+	}
+	return s
 }
 
 func (c *c15Client) List(_ context.Context, list client.ObjectList, opts ...client.ListOption) error {
@@ -187,14 +279,17 @@ func (c *c15Client) List(_ context.Context, list client.ObjectList, opts ...clie
 	}
 	c.lists++
 	pl.Items = nil
+	if c.fail {
+		return fmt.Errorf("c15Client: injected list failure")
+	}
 	for i, p := range c.pods {
-		if lo.Namespace != "" && p.ns != lo.Namespace {
+		if lo.Namespace != "" && p.ns() != lo.Namespace {
 			continue
 		}
 		match := true
 		if lo.FieldSelector != nil {
 			for _, rq := range lo.FieldSelector.Requirements() {
-				if rq.Field != "label.quotaName" || rq.Value != p.quotaLabel {
+				if rq.Field != "label.quotaName" || rq.Value != p.quotaLabel() {
 					match = false
 				}
 			}
@@ -202,9 +297,9 @@ func (c *c15Client) List(_ context.Context, list client.ObjectList, opts ...clie
 		if !match {
 			continue
 		}
-		pod := corev1.Pod{ObjectMeta: metav1.ObjectMeta{Name: fmt.Sprintf("pod%d", i), Namespace: p.ns, Labels: map[string]string{}}}
-		if p.quotaLabel != "" {
-			pod.Labels[extension.LabelQuotaName] = p.quotaLabel
+		pod := corev1.Pod{ObjectMeta: metav1.ObjectMeta{Name: fmt.Sprintf("pod%d", i), Namespace: p.ns(), Labels: map[string]string{}}}
+		if p.label >= 0 {
+			pod.Labels[extension.LabelQuotaName] = p.quotaLabel()
 		}
 		pl.Items = append(pl.Items, pod)
 	}
@@ -671,13 +766,55 @@ func (g *c15Gen) mutate(old *c15Spec) *c15Spec {
 	return &sp
 }
 
-func c15OpLine(kind string, sp *c15Spec, hasPods bool) string {
+func c15OpLine(kind string, sp *c15Spec, cl *c15Client) string {
+	if cl == nil {
+		cl = &c15Client{}
+	}
 	ns := ""
 	for _, n := range sp.ns {
 		ns += fmt.Sprintf(" %d", n)
 	}
-	return fmt.Sprintf("%s %d %d %d %d %d %d %d %d %d%s %s %s", kind, sp.name, sp.parent, vB(sp.isParent), sp.tree,
-		vB(sp.force), vB(sp.treeRoot), vB(sp.swNeg), vB(hasPods), len(sp.ns), ns, c15Vec(sp.mn), c15Vec(sp.mx))
+	return fmt.Sprintf("%s %d %d %d %d %d %d %d %s %d %d%s %d %d %s %s", kind, sp.name, sp.parentCode(), sp.ipCode(), sp.tree,
+		sp.forceCode(), sp.rootCode(), sp.swCode(), cl.envTokens(), sp.nsShape, len(sp.ns), ns, vB(sp.mnNil), vB(sp.mxNil), c15Vec(sp.mn), c15Vec(sp.mx))
+}
+
+// shapes draws the raw representation of a request (glue in front of the entry points).
+func (g *c15Gen) shapes(sp *c15Spec, rp c15Repr) {
+	r := g.r
+	sp.parentShape = 0
+	if rp.rootAsEmptyLabel {
+		sp.parentShape = 1
+	}
+	if r.Chance(1, 6) {
+		sp.parentShape = r.Intn(3)
+	}
+	sp.ipShape, sp.forceShape, sp.rootShape = 0, 0, 0
+	if r.Chance(1, 6) {
+		sp.ipShape = r.Intn(3)
+	}
+	if r.Chance(1, 8) {
+		sp.forceShape = r.Intn(3)
+	}
+	if r.Chance(1, 8) {
+		sp.rootShape = r.Intn(3)
+	}
+	sp.mnNil, sp.mxNil = rp.emptyListAsNil, rp.emptyListAsNil
+	if r.Chance(1, 6) {
+		sp.mnNil, sp.mxNil = r.Bool(), r.Bool()
+	}
+	if sp.swNeg {
+		sp.swShape = r.Range(1, 2)
+	} else {
+		sp.swShape = int(r.Pick([]int64{0, 0, 0, 0, 3, 4}))
+	}
+	switch {
+	case r.Chance(1, 30):
+		sp.nsShape, sp.ns = 2, nil
+	case r.Chance(1, 8):
+		sp.nsShape = 1
+	default:
+		sp.nsShape = 0
+	}
 }
 
 func c15ErrKind(err error) string {
@@ -768,32 +905,37 @@ func TestVerifC15(t *testing.T) {
 			cl.pods = nil
 			old := g.store[target]
 			if r.Chance(1, 8) {
-				cl.pods = append(cl.pods, c15Pod{ns: c15NsName(r.Range(5, 6)), quotaLabel: c15Name(target)})
+				cl.pods = append(cl.pods, c15Pod{1, r.Range(5, 6), target})
 			}
 			if r.Chance(1, 10) {
-				cl.pods = append(cl.pods, c15Pod{ns: c15Name(target)})
+				cl.pods = append(cl.pods, c15Pod{2, target, -1})
 			}
 			if old != nil && len(old.ns) > 0 && r.Chance(1, 5) {
-				cl.pods = append(cl.pods, c15Pod{ns: c15NsName(old.ns[r.Intn(len(old.ns))])})
+				cl.pods = append(cl.pods, c15Pod{1, old.ns[r.Intn(len(old.ns))], -1})
 			}
 			if r.Chance(1, 3) {
-				cl.pods = append(cl.pods, c15Pod{ns: c15NsName(r.Range(5, 6)), quotaLabel: c15Name(target + 1)}, c15Pod{ns: "elsewhere"})
+				cl.pods = append(cl.pods, c15Pod{1, r.Range(5, 6), target + 1}, c15Pod{0, 0, -1})
 			}
 			labelPods, boundPods := false, false
 			for _, p := range cl.pods {
-				if p.quotaLabel == c15Name(target) {
+				if p.label == target {
 					labelPods, boundPods = true, true
 				}
-				if p.ns == c15Name(target) {
+				if p.ns() == c15Name(target) {
 					boundPods = true
 				}
 				if old != nil {
 					for _, x := range old.ns {
-						if p.ns == c15NsName(x) {
+						if p.ns() == c15NsName(x) {
 							boundPods = true
 						}
 					}
 				}
+			}
+			_ = boundPods // the model decodes the pod environment itself (hasBoundPods); kept for the tags below
+			cl.fail = r.Chance(1, 30)
+			if cl.fail {
+				h.Tag("env:list-fails")
 			}
 
 			var err error
@@ -805,8 +947,9 @@ func TestVerifC15(t *testing.T) {
 				if sp.name == 0 { // hypothesis NotRootAdd of the Lean theorems (root-named creates: TestVerifC15RootAdd)
 					h.Fail("C15:assumption-not-root-add", "main stream generated a create request named root")
 				}
-				h.Op("%s", c15OpLine("add", sp, false))
-				obj := c15Object(sp, rp)
+				g.shapes(sp, rp)
+				h.Op("%s", c15OpLine("add", sp, cl))
+				obj := c15Object(sp)
 				panicked = h.Guard(func() { err = qt.ValidAddQuota(obj) })
 			case "upd":
 				if old != nil {
@@ -814,20 +957,26 @@ func TestVerifC15(t *testing.T) {
 				} else {
 					sp = g.fresh(target)
 				}
-				h.Op("%s", c15OpLine("upd", sp, boundPods))
-				obj := c15Object(sp, rp)
+				if old == nil || !r.Chance(1, 3) { // otherwise: keep the old object's spelling (pure content change / identical request)
+					g.shapes(sp, rp)
+				} else if sp.nsShape == 2 {
+					sp.ns = nil // the annotation stays malformed
+				}
+				h.Tag(fmt.Sprintf("shape:ns%d:sw%d:parent%d", sp.nsShape, sp.swCode(), sp.parentCode()/98*sp.parentCode()))
+				h.Op("%s", c15OpLine("upd", sp, cl))
+				obj := c15Object(sp)
 				var oldObj *v1alpha1.ElasticQuota
 				if old != nil {
-					oldObj = c15Object(old, rp)
+					oldObj = c15Object(old)
 				}
 				panicked = h.Guard(func() { err = qt.ValidUpdateQuota(oldObj, obj) })
 			case "del":
-				h.Op("del %d %d", target, vB(labelPods))
+				h.Op("del %d %s", target, cl.envTokens())
 				var obj *v1alpha1.ElasticQuota
 				if old != nil {
-					obj = c15Object(old, rp)
+					obj = c15Object(old)
 				} else {
-					obj = c15Object(&c15Spec{name: target, mn: [c15Dims]int64{c15Absent, c15Absent, c15Absent}, mx: [c15Dims]int64{c15Absent, c15Absent, c15Absent}}, rp)
+					obj = c15Object(&c15Spec{name: target, mn: [c15Dims]int64{c15Absent, c15Absent, c15Absent}, mx: [c15Dims]int64{c15Absent, c15Absent, c15Absent}})
 				}
 				panicked = h.Guard(func() { err = qt.ValidDeleteQuota(obj) })
 			}
@@ -945,7 +1094,7 @@ func TestVerifC15RootAdd(t *testing.T) {
 		if r == nil {
 			continue
 		}
-		rp := c15Repr{emptyListAsNil: r.Bool()}
+		nilMaps := r.Bool()
 		cl := &c15Client{}
 		qt := NewQuotaTopology(cl)
 		store := map[int]*c15Spec{}
@@ -960,7 +1109,10 @@ func TestVerifC15RootAdd(t *testing.T) {
 		if pre > 0 && r.Bool() {
 			plan = append(plan, mk(6, 3, false, int64(r.Range(0, 3)))) // a grandchild
 		}
-		root := &c15Spec{name: 0, parent: c15NoParent, isParent: true, mn: none, mx: none}
+		root := &c15Spec{name: 0, parent: c15NoParent, isParent: true, mn: none, mx: none, mnNil: nilMaps, mxNil: nilMaps}
+		if r.Chance(1, 3) {
+			root.parentShape = 1 // no parent label at all (the scheduler writes the label with value "")
+		}
 		switch r.Intn(6) {
 		case 0:
 			root.parent = 0 // parent label names the root itself
@@ -982,8 +1134,8 @@ func TestVerifC15RootAdd(t *testing.T) {
 		for st, sp := range plan {
 			before := c15Snapshot(qt)
 			var err error
-			h.Op("%s", c15OpLine("add", sp, false))
-			obj := c15Object(sp, rp)
+			h.Op("%s", c15OpLine("add", sp, nil))
+			obj := c15Object(sp)
 			if h.Guard(func() { err = qt.ValidAddQuota(obj) }) {
 				h.Obs("panic")
 				h.Fail("C15:panic", "request %d (add %d) panicked", st, sp.name)
@@ -1076,30 +1228,29 @@ func c15Alphabet() []c15Req {
 
 func (rq c15Req) line() string {
 	if rq.kind == "del" {
-		return fmt.Sprintf("del %d 0", rq.sp.name)
+		return fmt.Sprintf("del %d 0 0", rq.sp.name)
 	}
-	return c15OpLine(rq.kind, rq.sp, false)
+	return c15OpLine(rq.kind, rq.sp, nil)
 }
 
 // c15Apply sends one request to the real topology; store = accepted API objects (old object of update / delete).
 func c15Apply(h *vHarness, qt *quotaTopology, store map[int]*c15Spec, rq c15Req) (ok, panicked bool, err error) {
-	rp := c15Repr{}
 	old := store[rq.sp.name]
 	switch rq.kind {
 	case "add":
-		obj := c15Object(rq.sp, rp)
+		obj := c15Object(rq.sp)
 		panicked = h.Guard(func() { err = qt.ValidAddQuota(obj) })
 	case "upd":
-		obj := c15Object(rq.sp, rp)
+		obj := c15Object(rq.sp)
 		var oldObj *v1alpha1.ElasticQuota
 		if old != nil {
-			oldObj = c15Object(old, rp)
+			oldObj = c15Object(old)
 		}
 		panicked = h.Guard(func() { err = qt.ValidUpdateQuota(oldObj, obj) })
 	case "del":
-		obj := c15Object(rq.sp, rp)
+		obj := c15Object(rq.sp)
 		if old != nil {
-			obj = c15Object(old, rp)
+			obj = c15Object(old)
 		}
 		panicked = h.Guard(func() { err = qt.ValidDeleteQuota(obj) })
 	}
